@@ -309,3 +309,63 @@ mod tests {
         assert_eq!(components, &[vec![2], vec![4], vec![5], vec![3], vec![1]])
     }
 }
+
+#[cfg(feature = "verif-hooks")]
+impl TypeChecker {
+    /// The reference graph, `tarjan` on it and the result of
+    /// `find_compilation_order`, with nodes numbered by `Ord` rank.
+    pub fn verif_c14_dump(&self) -> crate::verif_hooks::c14::Dump {
+        use crate::verif_hooks::c14::{Dump, Node, NodeKind};
+        let refs = &self.references.references;
+        let mut all = BTreeSet::new();
+        for (k, vs) in refs {
+            all.insert(*k);
+            all.extend(vs.iter().copied());
+        }
+        let names: Vec<ResolvedName> = all.into_iter().collect();
+        let idx = |n: &ResolvedName| names.binary_search(n).unwrap();
+        let nodes = names
+            .iter()
+            .map(|n| {
+                let dec = self.type_info.scope_graph.get_declaration(*n);
+                let kind = match dec.kind {
+                    super::scope::DeclarationKind::Value(
+                        ValueKind::Constant,
+                        _,
+                    ) => NodeKind::Constant,
+                    super::scope::DeclarationKind::Value(
+                        ValueKind::Context(..),
+                        _,
+                    ) => NodeKind::Context,
+                    super::scope::DeclarationKind::Function(_)
+                    | super::scope::DeclarationKind::Method(_) => {
+                        NodeKind::Function
+                    }
+                    _ => NodeKind::Other,
+                };
+                Node {
+                    name: self.type_info.full_name(n).as_str().to_string(),
+                    kind,
+                }
+            })
+            .collect();
+        let edges = refs
+            .iter()
+            .map(|(k, vs)| (idx(k), vs.iter().map(&idx).collect()))
+            .collect();
+        let components = tarjan(refs)
+            .iter()
+            .map(|c| c.iter().map(&idx).collect())
+            .collect();
+        let order = match self.find_compilation_order() {
+            Ok(o) => Ok(o.iter().map(&idx).collect()),
+            Err(e) => Err(e.description),
+        };
+        Dump {
+            nodes,
+            edges,
+            order,
+            components,
+        }
+    }
+}
